@@ -234,6 +234,10 @@ def _prepare_api_config(
             kind=kind,
             _asyncio=True,
         )
+        if resource_api.version != api_version or resource_api.kind != kind:
+            # kr8s matches a group-less version against every group, and a
+            # kind against singular / plural names: this is another API.
+            raise KeyError(kind)
     except KeyError:
         try:
             resource_api = kr8s.objects.new_class(
